@@ -33,6 +33,7 @@ func (g *GcsEmu) makeBucketListResults(ctx context.Context, baseUrl HttpBaseUrl,
 
 	moreResults := false
 	count := 0
+	lastEntry := "" // a cursor that resumes right after the last entry added to this page
 	err := g.store.Walk(ctx, bucket, func(ctx context.Context, filename string, fInfo os.FileInfo) error {
 		dbgWalk("walk: %s", filename)
 
@@ -65,12 +66,6 @@ func (g *GcsEmu) makeBucketListResults(ctx context.Context, baseUrl HttpBaseUrl,
 			return nil
 		}
 
-		if count >= maxResults {
-			moreResults = true
-			return errAbort
-		}
-		count++
-
 		if delimiter != "" {
 			// See if the filename (beyond the prefix) contains delimiter, if it does, don't record the item,
 			// instead record the prefix (including the delimiter).
@@ -79,18 +74,32 @@ func (g *GcsEmu) makeBucketListResults(ctx context.Context, baseUrl HttpBaseUrl,
 			if delimiterPos >= 0 {
 				// Got a hit, reconstruct the item's prefix, including the trailing delimiter
 				itemPrefix := filename[:len(prefix)+delimiterPos+len(delimiter)]
-				if !seenPrefixes[itemPrefix] {
-					seenPrefixes[itemPrefix] = true
-					prefixes = append(prefixes, itemPrefix)
+				if seenPrefixes[itemPrefix] {
+					return nil
 				}
+				if count >= maxResults {
+					moreResults = true
+					return errAbort
+				}
+				count++
+				seenPrefixes[itemPrefix] = true
+				prefixes = append(prefixes, itemPrefix)
+				// Resume after every name that collapses into this prefix.
+				lastEntry = itemPrefix + "\U0010FFFF"
 				return nil
 			}
 		}
 
+		if count >= maxResults {
+			moreResults = true
+			return errAbort
+		}
+		count++
 		found = append(found, item{
 			filename: filename,
 			fInfo:    fInfo,
 		})
+		lastEntry = filename
 		return nil
 	})
 	// Sentinel error is not an error
@@ -116,6 +125,11 @@ func (g *GcsEmu) makeBucketListResults(ctx context.Context, baseUrl HttpBaseUrl,
 		if obj, err := g.store.ReadMeta(baseUrl, bucket, item.filename, item.fInfo); err != nil {
 			// return our partial results + the cursor so that the client can retry from this point
 			g.log(nil, "failed to resolve: %s", item.filename)
+			moreResults = true
+			lastEntry = ""
+			if len(items) > 0 {
+				lastEntry = items[len(items)-1].Name
+			}
 			break
 		} else {
 			items = append(items, obj)
@@ -123,9 +137,8 @@ func (g *GcsEmu) makeBucketListResults(ctx context.Context, baseUrl HttpBaseUrl,
 	}
 
 	var nextPageToken = ""
-	if moreResults && len(items) > 0 {
-		lastItemName := items[len(items)-1].Name
-		nextPageToken = gcsutil.EncodePageToken(lastItemName)
+	if moreResults && lastEntry != "" {
+		nextPageToken = gcsutil.EncodePageToken(lastEntry)
 	}
 
 	rsp := storage.Objects{
